@@ -69,6 +69,9 @@ def unknown_keys(prog):
     return out
 
 
+USED_BUFFERS = (([0xB1, 0xB2, 0xB3], 0), ([0xA1, 0xA2, 0xA3, 0xA4, 0xA5], 2))
+
+
 def make_case(prog, tier, nmsgs):
     """-> (case dict for the drivers, list of message records)"""
     thorough = tier == "thorough"
@@ -84,6 +87,11 @@ def make_case(prog, tier, nmsgs):
             continue
         recs.append({"id": mid, "label": label, "val": m, "ref": ref})
         ops.append({"op": "enc", "id": mid, "pkt": rootname, "val": m})
+        # histories: the same message encoded into a USED buffer (WireMachine.tla: PreSet / ConsumeSome): one that already
+        # holds bytes, and one of which a reader has consumed a part
+        if i < 2 or thorough:
+            for pre, rd in USED_BUFFERS:
+                ops.append({"op": "encinto", "id": mid, "pkt": rootname, "val": m, "pre": pre, "rd": rd})
         tails = TAILS if (i < 2 or thorough) else [[0xEE]]
         for t in tails:
             ops.append({"op": "dec", "id": mid, "pkt": rootname, "bytes": ref, "tail": t})
@@ -198,6 +206,13 @@ def trace_of(results, use_langs):
                     x = {"ev": "enc", "lang": l, "ok": bool(e.get("ok")), "bytes": e.get("bytes", []),
                          "calcs": e.get("calcs", []), "prims": e.get("prims", []), "cls": e.get("cls", "")}
                     ev(x, {"prog": pid, "msg": rec["label"], "lang": l, "err": e.get("err")})
+                intos = byid[l].get(("encinto", rec["id"]), [])
+                for e, (pre, rd) in zip(intos, USED_BUFFERS):
+                    if e.get("pre") != len(pre) or e.get("rd") != rd:
+                        raise Infra("%s driver: encinto event out of order for %s: %s" % (l, pid, {k: e.get(k) for k in ("id", "pre", "rd")}))
+                    x = {"ev": "encinto", "lang": l, "ok": bool(e.get("ok")), "prebytes": pre, "rd": rd, "bytes": e.get("bytes", []),
+                         "calcs": e.get("calcs", []), "prims": e.get("prims", []), "cls": e.get("cls", "")}
+                    ev(x, {"prog": pid, "msg": rec["label"], "lang": l, "err": e.get("err"), "into": "pre%d-rd%d" % (len(pre), rd)})
                 decs = byid[l].get(("dec", rec["id"]), [])
                 for di, e in enumerate(decs):
                     x = {"ev": "dec", "lang": l, "ok": bool(e.get("ok")), "tail": e.get("tail", 0),
